@@ -5,6 +5,8 @@ import (
 	"math/big"
 	"math/rand"
 	"strings"
+	"sync"
+	"sync/atomic"
 
 	"github.com/llir/llvm/ir"
 	"github.com/llir/llvm/ir/constant"
@@ -59,6 +61,7 @@ func genC09(ctx *fw.Ctx) []fw.Case {
 		cases = append(cases, fw.Case{ID: fmt.Sprintf("positions/i%d", w), Run: func(r *fw.Rec) { c09Positions(r, w) }})
 	}
 	cases = append(cases, fw.Case{ID: "storage/constants-own-their-value", Run: c09OwnStorage})
+	cases = append(cases, fw.Case{ID: "concurrent/independent-constants-printed-and-parsed-side-by-side", Run: c09Concurrent})
 	return cases
 }
 
@@ -716,4 +719,91 @@ func c09OwnStorage(r *fw.Rec) {
 	}
 	r.NontrivialN("storage", len(cs))
 	r.TallyN("storage", "constants-own-their-value", len(cs))
+}
+
+// c09Concurrent prints and parses independent constants from several goroutines
+// at once: every goroutine owns its constants, so each Ident() and each
+// NewIntFromString must give what it gives alone (computed before the goroutines
+// start). Shared scratch storage inside the printer or the parser shows as a
+// literal that denotes another value.
+func c09Concurrent(r *fw.Rec) {
+	const G = 8
+	rng := r.Ctx().Rand("c09/concurrent")
+	type item struct {
+		c    *constant.Int
+		want string
+		w    uint64
+		v    *big.Int
+	}
+	sets := make([][]item, G)
+	for g := range sets {
+		for _, w := range []uint64{1, 8, 32, 64, 65, 128, 256, 1024} {
+			for _, v := range structuredValues(w, rng, 6) {
+				typ := types.NewInt(w)
+				c := constant.NewInt(typ, 0)
+				c.X = new(big.Int).Set(signedw(v, w))
+				var want string
+				if p, _, _ := fw.Guard(func() { want = c.Ident() }); p {
+					continue
+				}
+				sets[g] = append(sets[g], item{c, want, w, new(big.Int).Set(c.X)})
+			}
+		}
+	}
+	type bad struct{ what, input string }
+	var mu sync.Mutex
+	var bads []bad
+	var evals int64
+	start := make(chan struct{})
+	var wg sync.WaitGroup
+	for g := 0; g < G; g++ {
+		wg.Add(1)
+		go func(items []item) {
+			defer wg.Done()
+			<-start
+			n := int64(0)
+			for rep := 0; rep < 40; rep++ {
+				for _, it := range items {
+					var got string
+					var back *constant.Int
+					var err error
+					p, msg, _ := fw.Guard(func() {
+						got = it.c.Ident()
+						back, err = constant.NewIntFromString(types.NewInt(it.w), got)
+					})
+					n++
+					switch {
+					case p:
+						mu.Lock()
+						bads = append(bads, bad{"panic: " + firstLine(msg), it.want})
+						mu.Unlock()
+					case got != it.want:
+						mu.Lock()
+						bads = append(bads, bad{fmt.Sprintf("i%d constant printed as %s while other goroutines print their own constants, alone as %s", it.w, fw.Trunc(got, 80), fw.Trunc(it.want, 80)), it.want})
+						mu.Unlock()
+					case err != nil || modw(back.X, it.w).Cmp(modw(it.v, it.w)) != 0:
+						mu.Lock()
+						bads = append(bads, bad{fmt.Sprintf("i%d literal %s read back as another value while other goroutines parse their own literals", it.w, fw.Trunc(got, 80)), it.want})
+						mu.Unlock()
+					}
+				}
+			}
+			atomic.AddInt64(&evals, n)
+		}(sets[g])
+	}
+	close(start)
+	wg.Wait()
+	r.Eval(int(evals))
+	distinct := 0
+	for _, items := range sets {
+		distinct += len(items)
+	}
+	r.NontrivialN("concurrent-ident-and-parse", distinct)
+	r.Tally("concurrent", fmt.Sprintf("goroutines=%d", G))
+	for i, b := range bads {
+		if i >= 3 {
+			break
+		}
+		r.Violate(fw.Violation{Key: fmt.Sprintf("concurrent/%d", i), Input: b.input, What: b.what})
+	}
 }
